@@ -71,6 +71,7 @@ type batchScn struct {
 	cDetour       bool       // before every later run the concurrency is first set to another value, then to the run's
 	stopByRun     []bool     // stop-on-error mode of each run (builder method before the run)
 	cancelFromRun int        // the cancel spec applies to runs with at least this index (earlier runs are not cancelled)
+	ctxByRun      []int      // which context OBJECT each run receives (equal numbers: the same cancellable context again); only for scenarios whose last run alone is cancelled
 	feedback      bool       // repeated runs: the result slice post received becomes, AS IT IS, the items of the next run
 	cancel        cancelSpec // cancellation injection
 	// oracle groups
@@ -209,6 +210,7 @@ type brHolder struct {
 	lastStop          bool // what the previous run was configured with (see BR.run)
 	lastC, lastBudget int
 	prevResults       []flyt.Result // feedback mode: what post received in the previous run
+	ctxs              map[int]*core.Ctx
 	cur               *BR
 	nb                *flyt.BatchNodeBuilder
 	store             *flyt.SharedStore
@@ -300,7 +302,27 @@ func (b *BR) run() {
 		c, _ := core.WithDeadline(context.Background(), core.Now().Add(sc.deadline))
 		ctx = c
 	}
-	if sc.cancel.kind != 0 && b.runIdx >= sc.cancelFromRun {
+	if len(sc.ctxByRun) > 0 {
+		// context identities across the runs of one node object: a live cancellable context per
+		// number, handed in again wherever the number repeats; only the last run cancels its own
+		if b.h.ctxs == nil {
+			b.h.ctxs = map[int]*core.Ctx{}
+		}
+		id := sc.ctxByRun[b.runIdx]
+		c := b.h.ctxs[id]
+		if c == nil {
+			c, _ = core.WithCancel(context.Background())
+			b.h.ctxs[id] = c
+		}
+		ctx = c
+		if sc.cancel.kind != 0 && b.runIdx >= sc.cancelFromRun {
+			b.ctx = c
+			b.ctxErr = context.Canceled
+			if sc.cancel.before {
+				b.cancelNow()
+			}
+		}
+	} else if sc.cancel.kind != 0 && b.runIdx >= sc.cancelFromRun {
 		var parent context.Context = context.Background()
 		if sc.withCause {
 			// a standard cancel-with-cause context as parent: context.Cause(ctx) then differs from ctx.Err()
